@@ -55,7 +55,8 @@ DerivedClauses(p, bd) ==
     \cup (IF \A x \in Holders(p) : x[1] \in Ids => x[3] <= bd[x[1]] THEN {} ELSE {"C03.derived-outlives-manifest/provider-contact"})
     \cup (IF \A x \in Pend(p) : x[1] \in Ids => x[2] <= bd[x[1]] THEN {} ELSE {"C03.derived-outlives-manifest/pending-fetch"})
 
-\* [C05] after a cleanup tick at T nothing that expired by T is left
+\* [C05] after a cleanup tick at T nothing that expired by T is left; r is the ghost BEFORE the tick, so
+\* r[c].live /\ r[c].dl <= tc says: local chunk c expires at this tick (its own announcement must be withdrawn)
 CleanupClauses(p, tc, bd, r) ==
     (IF \A x \in Chunks(p) : x[2] > tc THEN {} ELSE {"C05.expired-after-cleanup/chunk"})
     \cup (IF \A x \in Shard(p) : x[2] > tc THEN {} ELSE {"C05.expired-after-cleanup/key-shares"})
@@ -64,7 +65,7 @@ CleanupClauses(p, tc, bd, r) ==
     \cup (IF \A x \in Cache(p) : x[1] \in Ids => bd[x[1]] > tc THEN {} ELSE {"C05.expired-after-cleanup/cached-manifest"})
     \cup (IF \A c \in Plans(p) : c \in Ids => bd[c] > tc THEN {} ELSE {"C05.expired-after-cleanup/swarm-plan"})
     \cup (IF \A x \in Pend(p) : x[1] \in Ids => (x[2] > tc /\ bd[x[1]] > tc) THEN {} ELSE {"C05.expired-after-cleanup/pending-fetch"})
-    \cup (IF \A x \in Holders(p) : (x[2] = 0 /\ x[1] \in Ids) => (r[x[1]].live /\ r[x[1]].dl > tc) THEN {} ELSE {"C05.own-announcement-not-withdrawn"})
+    \cup (IF \A x \in Holders(p) : (x[2] = 0 /\ x[1] \in Ids) => ~(r[x[1]].live /\ r[x[1]].dl <= tc) THEN {} ELSE {"C05.own-announcement-not-withdrawn"})
 
 Common(e, bad, r2, h2, bd2, ow2, nt2, sl2) ==
     /\ mE' = IF e.op \in {"manifest", "replica"} /\ e.c \in Ids /\ e.exp > mE[e.c] THEN [mE EXCEPT ![e.c] = e.exp] ELSE mE
@@ -116,6 +117,10 @@ Step(e) ==
                    \cup (IF \A c \in held : CLive(rec, e.t, c) => c \in ArrSet(Arr(e.ids)) THEN {} ELSE {"C29.list-missing-live-chunk"})
         IN Common(e, bad, rec, held, bound, owed, notified, slack)
     [] e.op = "mk" -> Common(e, {}, rec, held, bound, owed, notified, slack)
+    [] e.op = "selfann" ->
+        \* announce_chunk(c, ttl) by the operator: an announcement of the node's own, not derived from a manifest
+        LET bd2 == [bound EXCEPT ![e.c] = Max(@, e.t + e.ttl)]
+        IN Common(e, DerivedClauses(e.proj, bd2), rec, held, bd2, owed, notified, slack)
     [] e.op = "manifest" ->
         \* a manifest with expiry E arrives (ingest / announce / request)
         LET c == e.c  E == e.exp
@@ -144,7 +149,7 @@ Step(e) ==
             ow2 == IF e.cleaned THEN [c \in Ids |-> IF c \in expd THEN owed[c] + 1 ELSE owed[c]] ELSE owed
             bd2 == Refetch(bound, tc, pproj, e.proj)
             bad == (IF e.cleaned THEN CleanupClauses(e.proj, tc, bd2, rec) ELSE {})
-                   \cup (IF e.cleaned /\ ~e.healthy THEN {"C05.audit-unhealthy-after-cleanup"} ELSE {})
+                   \cup (IF e.cleaned /\ (e.a_local + e.a_loc + e.a_contacts > 0) THEN {"C05.audit-reports-expired-after-cleanup"} ELSE {})
                    \cup DerivedClauses(e.proj, bd2)
         IN Common(e, bad, r2, held, bd2, ow2, notified, slack)
     [] e.op = "drain" ->
